@@ -384,6 +384,8 @@ func (v *Verifier) structural(cfg PropConfig, sc StructuralCheck) []StructResult
 		return v.stepRunPairing(cfg, sc)
 	case "codec_coverage":
 		return v.codecCoverage(cfg, sc)
+	case "clone_isolation":
+		return v.cloneIsolation(cfg, sc)
 	case "callers_subset":
 		var a struct {
 			Callee  string   `json:"callee"`
